@@ -38,7 +38,7 @@ def main():
     results = {}
     if meta["applies"] and meta["builds_with_hooks"] and meta["baseline_150"]:
         sh(f"mkdir -p {vdir} && rsync -a --delete --exclude target --exclude .work --exclude replays --exclude .git --exclude evidence --exclude mutants --exclude seeded /verif/ {vdir}/ && "
-           f"sed -i 's#path = \"/repo\"#path = \"{wt}\"#' {vdir}/harness/Cargo.toml {vdir}/sched/Cargo.toml")
+           f"sed -i 's#path = \"/repo\"#path = \"{wt}\"#' {vdir}/harness/Cargo.toml {vdir}/sched/Cargo.toml {vdir}/alias/Cargo.toml")
         for i in range(1, 21):
             chk = f"C{i:02d}"
             t0 = time.time()
